@@ -347,6 +347,50 @@ def replay_path(run, g, path, ropt, popt, label, variant=False):
         w.close()
 
 
+def real_dispatchers(r, rng, thorough):
+    """The REAL socket and asyncore dispatchers under the real network layer over loopback (harness/realnet.py): every scenario is
+    recorded and validated by TLC against NetLayer_Trace.tla - the dispatcher contract that Lifecycle.tla and the doubles assume."""
+    from harness import realnet
+    for cfg in ("MC_NetLayer_sync.cfg", "MC_NetLayer_async.cfg"):
+        r.add_tlc(core.must_clean(core.tlc("NetLayer", cfg, r.scratch, workers=8), cfg))
+    core.must_violate(core.tlc("NetLayer", "MC_NetLayer_asread.cfg", r.scratch, workers=4), "OrderlyCloseComplete", "MC_NetLayer_asread")
+    r.notes["selftest_netlayer_switch_violates"] = "OrderlyCloseComplete"
+    num = 400 if thorough else 24
+    res = core.tlc("NetLayer_Sim", "NetLayer_Sim.cfg", r.scratch, workers=1, simulate="num=%d" % num, depth=45, seed_=core.seed() + 16, timeout=1200)
+    scheds = [p["sched"] for p in res.printed() if isinstance(p, dict) and "sched" in p]
+    keep = []
+    for s in scheds:
+        if keep and s[:len(keep[-1])] == keep[-1]:
+            keep[-1] = s
+        else:
+            keep.append(s)
+    if len(keep) < num // 4:
+        raise core.MachineryError("NetLayer_Sim produced %d schedules\n%s" % (len(keep), res.out[-1200:]))
+    scripts = realnet.families() + [("tlc-sim", realnet.from_sched(s, rng)) for s in keep]
+    r.notes["netlayer_schedules_from_tlc"] = len(keep)
+    runs = []
+    import asyncore
+    orig_send = asyncore.dispatcher.send
+    stats = {"whole": 0, "partial": 0, "refused": 0}
+
+    def counting_send(self, data):
+        n = orig_send(self, data)
+        stats["whole" if n == len(data) else ("refused" if n == 0 else "partial")] += 1
+        return n
+    asyncore.dispatcher.send = counting_send        # observation only: how the socket took what it was given (non-vacuity of the partial-send paths)
+    try:
+        for kind in ("socket", "asyncore"):
+            for i, (label, sc) in enumerate(scripts):
+                ev, errs = realnet.run_scenario(kind, sc, rng, via_event=(i % 2 == 0))
+                runs.append((kind, label, sc, realnet.coalesce(ev), errs))
+                r.case(("real-dispatcher", kind, json.dumps(sc)))
+    finally:
+        asyncore.dispatcher.send = orig_send
+    r.notes["asyncore_socket_sends"] = stats
+    realnet.validate(r, runs)
+    r.notes["netlayer_events_recorded"] = sum(len(x[3]) for x in runs)
+
+
 def run():
     r = core.Run("C16", "model_checking")
     thorough = r.tier == "thorough"
@@ -354,13 +398,16 @@ def run():
     r.cov["rule"] = ("case = one event history of Lifecycle.tla (connect request, connected, socket error, peer close, disconnect request, success, "
                      "failure, stream error kinds, ping tick, pong(id), stack loop step; options reconnect on/off x keep-alive on/off) replayed on the real "
                      "default stack (fake dispatcher, Noise server double, real interface layer) under the deterministic scheduler with virtual time; after "
-                     "each event: application-visible notifications, dispatcher calls, connected / reconnect flags compared; distinct by (options, history)")
+                     "each event: application-visible notifications, dispatcher calls, connected / reconnect flags compared; distinct by (options, history); plus "
+                     "the real socket and asyncore dispatchers under the real network layer against a scripted TCP peer on loopback (schedules from TLC "
+                     "-simulate of NetLayer.tla and families), every recorded event validated by TLC against NetLayer_Trace")
     res = core.must_clean(core.tlc("Lifecycle", "MC_Lifecycle_thorough.cfg" if thorough else "MC_Lifecycle.cfg", r.scratch, workers=16, timeout=2000), "MC_Lifecycle")
     r.add_tlc(res)
     bad = core.tlc("Lifecycle", "MC_Lifecycle_asread.cfg", r.scratch, workers=8)
     if not bad.violated:
         raise core.MachineryError("self-test: a connect request overtaking the deferred DISCONNECTED event violates nothing in the model")
     r.notes["selftest_asread_switch_violates"] = bad.violated[:2]
+    real_dispatchers(r, rng, thorough)       # real threads and sockets: before any deterministic scheduler is installed
     roots = e2ekit.Roots()
     try:
         for ropt, popt in ((True, True), (False, True), (True, False), (False, False)):
